@@ -11,7 +11,8 @@ Operations added to the vocabulary of `structworld.Live` (all through the public
   ["batch_space_module", parent|"-", name, funcs, how, bases]  how: "import_module" | "new_space_from_module" (name=, bases=)
   ["copy_space", source, parent|"-", name|None]                source.copy(parent, name)
 
-`cols` are the column labels of a DataFrame with the index `x` = 0, 1, 2 and integer values (column i holds 10*i + x).
+`cols` are the column labels of a DataFrame with the index `idx_` = 0, 1, 2 (a name no alphabet uses: in a csv file a
+column labelled like the index column would be renamed by pandas) and integer values (column i holds 10*i + x).
 The k-th member of such a call may be unacceptable: a name in use in the space (cells / reference / child space /
 model-level reference), in use for something else in a SUB space, an invalid name, a name given twice in the call, a
 formula modelx cannot take.  Nothing about "must be refused" is asserted here: the hooks of the property judge each
@@ -62,7 +63,7 @@ def valid_name(n):
 
 def frame(cols):
     import pandas as pd
-    idx = pd.Index([0, 1, 2], name="x")
+    idx = pd.Index([0, 1, 2], name="idx_")
     data = [[10 * i + x for i in range(len(cols))] for x in range(3)]
     return pd.DataFrame(data, index=idx, columns=list(cols))
 
@@ -71,7 +72,7 @@ def csv_file(cols):
     _COUNT[0] += 1
     path = os.path.join(_tmpdir(), "t%d.csv" % _COUNT[0])
     with open(path, "w") as f:
-        f.write(",".join(["x"] + [str(c) for c in cols]) + "\n")
+        f.write(",".join(["idx_"] + [str(c) for c in cols]) + "\n")
         for x in range(3):
             f.write(",".join([str(x)] + [str(10 * i + x) for i in range(len(cols))]) + "\n")
     return path
@@ -160,6 +161,32 @@ def apply(live, k, op):
     return "bad-op"
 
 
+_PROBE = {}
+
+
+def import_module_checks_first():
+    """which of the two models of import_module / new_space_from_module describes the code under test: asked once per
+    process, on one input (a module with a function named like a model-level reference, imported into a throw-away
+    model).  True: the call was refused and left nothing (the functions are checked before the space is created:
+    `SM.St.newSpaceModuleChecked`); False: the space stayed (`SM.St.newSpaceModule`, known finding
+    C11-import-module-space-first).  Every other input is then compared with the model chosen."""
+    if "first" not in _PROBE:
+        from .impl import mx
+        m = mx.new_model("ProbeImportModule")
+        try:
+            m.g = 1
+            with warnings.catch_warnings():
+                warnings.simplefilter("ignore")
+                try:
+                    m.import_module(make_module("T", [["g", "def"]]), name="T")
+                    _PROBE["first"] = False
+                except Exception:   # noqa
+                    _PROBE["first"] = "T" not in m.spaces
+        finally:
+            m.close()
+    return _PROBE["first"]
+
+
 # ----------------------------------------------------------------------------- known findings (recognisers)
 
 def _names_of(sd, mrefs=()):
@@ -197,7 +224,7 @@ def classify(live, op, result, before, after):
                 if (q == op[1] or q.startswith(op[1] + ".")) and set(sd["cells"]) & mrefs:
                     return KEY_COPY
             return None
-        if kind == "batch_space_module":
+        if kind == "batch_space_module" and not import_module_checks_first():
             # import_module / new_space_from_module ONLY: the space is created, then the functions are looked at
             target = op[2] if op[1] == "-" else op[1] + "." + op[2]
             funcs, bases = op[3], (op[5] if len(op) > 5 and op[5] else [])
